@@ -249,7 +249,7 @@ func checkC08(e *core.Env) {
 				close(done)
 			}()
 			parked := false
-			for k := 0; k < 5000 && !parked; k++ {
+			for k := 0; k < 1000 && !parked; k++ {
 				for _, ev := range run.Events() {
 					if ev.Who == "h" && ev.Op == "gate:g" && ev.Call {
 						parked = true
@@ -258,6 +258,17 @@ func checkC08(e *core.Env) {
 				if !parked {
 					time.Sleep(time.Millisecond)
 				}
+			}
+			if !parked {
+				// the handler cannot get past its send before the client receives (a stream that buffers nothing):
+				// the situation this phase is about does not arise
+				cancel()
+				run.ReleaseAll()
+				<-done
+				run.Cancel()
+				c.Svc.Forget(run)
+				e.Count("late_receive_not_applicable", 1)
+				return
 			}
 			cancel()
 			time.Sleep(time.Duration(200+r.Intn(1500)) * time.Microsecond)
